@@ -342,8 +342,14 @@ func (x *c13Lib) step(si int, op c13Op) {
 		}
 		i := c13Sel(op.I, len(w.lb))
 		wit := c13NilIfEmpty(op.D.Bytes(), op.G)
-		// callers chain on the returned builder (in-tree test, sr25519)
-		w.lb[i] = w.lb[i].RekeyWithWitnessBytes(string(op.L.Bytes()), wit)
+		// Both calling styles are in use: chaining on the returned builder (the
+		// in-tree test) and statement style on the builder one already holds
+		// (sr25519's witnessRng): "rekeys the transcript" must hold for both.
+		if (si+len(op.D.Bytes()))%2 == 0 {
+			w.lb[i] = w.lb[i].RekeyWithWitnessBytes(string(op.L.Bytes()), wit)
+		} else if ret := w.lb[i].RekeyWithWitnessBytes(string(op.L.Bytes()), wit); ret == nil {
+			w.lb[i] = nil
+		}
 		if w.lb[i] == nil {
 			x.fail("TranscriptRngBuilder.RekeyWithWitnessBytes:returned-nil", "step %d", si)
 			x.dead = true
